@@ -135,7 +135,13 @@ def shared_name_partial_link(rng, r):
         src_pool = list(par["input_params"]) + [l[0] for l in par["local_variables"]]
         if not src_pool:
             continue
-        q = rng.choice(["x", "y", "N"])
+        # (never a name that one of the two children already binds through a port of that bare size: a name that is both a
+        # declared parameter and a port's size symbol has two binders, and which one a compound size means is not C06's business)
+        bound = {p["size"][1] for c in (c1, c2) for p in c["ports"] if p["size"] is not None and p["size"][0] == "s"}
+        qs = [x for x in ["x", "y", "N"] if x not in bound]
+        if not qs:
+            continue
+        q = rng.choice(qs)
         for c in (c1, c2):
             if q not in c["input_params"]:
                 c["input_params"] = list(c["input_params"]) + [q]
